@@ -2,6 +2,7 @@
 //! Reads one JSON request per line from the file given as argv[1] (or stdin), writes one
 //! JSON response per line to stdout.  Every request runs inside catch_unwind.
 mod cmp;
+mod lex;
 mod multi;
 mod oracle;
 mod render;
@@ -20,6 +21,7 @@ fn dispatch(req: &J) -> J {
         "render" => render::run(req),
         "history" => multi::history(req),
         "threads" => multi::threads(req),
+        "lex" => lex::run(req),
         "dateparse" => {
             // DateTime::from_str on a text: the components, or null
             match liquid_core::model::DateTime::from_str(req["text"].as_str().unwrap()) {
